@@ -342,7 +342,15 @@ def vm_crosscheck(pid, inputs, outputs, timeout=600, limit=300):
     """evaluate the same cases inside Coq (vm_compute) and compare with the extracted driver's answers"""
     ext = open(os.path.join(COQ, 'extract', pid + '.v'), encoding='utf8').read()
     imports = re.findall(r'From Verif Require Import [^.]*\.', ext)
-    rundef = re.search(r'Definition verif_entry := ([\w.]+)\.', ext).group(1)
+    m_simple = re.search(r'Definition verif_entry := ([\w.]+)\.', ext)
+    extra_defs = ''
+    if m_simple:
+        rundef = m_simple.group(1)
+    else:
+        # a dispatcher written out in the extraction file: copy its definition verbatim
+        m_def = re.search(r'(Definition verif_entry\b.*?\.)\s*\n\s*Extraction', ext, re.S)
+        extra_defs = m_def.group(1)
+        rundef = 'verif_entry'
 
     def coqv(v):
         if isinstance(v, int):
@@ -350,6 +358,8 @@ def vm_crosscheck(pid, inputs, outputs, timeout=600, limit=300):
         return '(VL [' + '; '.join(coqv(x) for x in v) + '])'
     pairs = [(i, o) for i, o in zip(inputs, outputs) if not (isinstance(o, list) and o and o[0] == 'driver-error')][:limit]
     body = ['From Coq Require Import List ZArith Bool.', 'Import ListNotations.', 'Local Open Scope Z_scope.'] + imports
+    if extra_defs:
+        body.append(extra_defs)
     body.append('Definition cases : list (val * val) := [')
     body.append(';\n'.join('(%s, %s)' % (coqv(i), coqv(o)) for i, o in pairs))
     body.append('].')
@@ -495,6 +505,24 @@ def canonical(v):
 
 
 def main(argv):
+    """entry point: any internal error of the pipeline is itself reported in the interface's terms (the property is then not shown to hold)"""
+    try:
+        return _main(argv)
+    except SystemExit:
+        raise
+    except BaseException as e:   # noqa
+        pid = next((a for a in argv if re.fullmatch(r'C\d{2,3}', a)), 'unknown')
+        os.makedirs(os.path.join(VERIF, 'replays'), exist_ok=True)
+        path = os.path.join(VERIF, 'replays', '%s-internal-error.json' % pid)
+        json.dump(dict(property=pid, kind='no-failing-input-found',
+                       no_longer_checks=['the check itself failed: %s: %s' % (type(e).__name__, str(e)[:500])],
+                       traceback=traceback.format_exc()[-3000:]), open(path, 'w'), indent=1)
+        log(traceback.format_exc()[-1500:])
+        log('VIOLATION property=%s replay=%s no-failing-input-found' % (pid, path))
+        return 1
+
+
+def _main(argv):
     import argparse
     ap = argparse.ArgumentParser()
     ap.add_argument('pid')
